@@ -19,7 +19,7 @@ BOUNDS = {'quick': 'die height 4 (then transposed: width 4), die extent on the o
                    'symbolic breakpoints 0<b1<...<W (gaps in [0.01,250]); k<=1 region on 16 placements x 3 kinds (blockage, '
                    'specialised, fixed module) and k=2 regions on 14 placements with <=3 breakpoints; k=3 regions at concrete places in all 60 mixed orders of the tags #/dsp/bram/fixed; bands from {full, lower, middle, upper, lower half, upper half}; '
                    'negative harness: one region sticking out, two regions overlapping; binary64 kernel: decimal coordinates n/10, n/100 with n < 2^8 (2^10-2^11 thorough)',
-          'thorough': 'k=2 on all generated placements over <=3 breakpoints (3 tag pairs) and every 4th placement over 4 breakpoints; k=3 symbolic on 3 stacked/side-by-side placements; decimal kernel with n < 2^10..2^11'}
+          'thorough': 'k=2 on all generated placements over <=3 breakpoints (3 tag pairs) and a sample of the placements over 4 breakpoints (two band pairs); k=3 symbolic on 3 stacked/side-by-side placements; decimal kernel with n < 2^10..2^11'}
 ASSUMPTIONS = ['R model; tolerances preset 1e-10/1e-5; distinct boundary coordinates differ by >= 0.01',
                'one axis symbolic at a time']
 NOT_DECIDED = ['binary64 rounding beyond the inside test of decimal coordinates n/10, n/100 (the fp-border kernel runs the real Die._check_rectangles inside test on z3 FloatingPoint terms)', 'both axes symbolic at once',
@@ -85,7 +85,7 @@ def cases(tier):
     kinds2 = [('#', 'dsp'), ('fixed', '#'), ('dsp', 'fixed')]
     if tier != 'quick':
         # every placement on <= 3 breakpoints, every 4th placement on 4 breakpoints (these cost 4-25 min of solver time each)
-        valid2 = [p for p in valid2 if p[0] <= 3] + [p for p in valid2 if p[0] == 4][::4]
+        valid2 = [p for p in valid2 if p[0] <= 3] + [p for p in valid2 if p[0] == 4 and (p[3], p[4]) in (('lower', 'upper'), ('full', 'full'))][::2]
     for n_, (nb, a, b, ba, bb, _) in enumerate(valid2):
         ks = [kinds2[n_ % len(kinds2)]] if (tier == 'quick' or nb >= 4) else kinds2
         for (ka, kb) in ks:
@@ -122,7 +122,7 @@ def cases(tier):
     return cs
 
 
-OPTS = {'quick': dict(max_paths=30000, budget_s=250), 'thorough': dict(max_paths=300000, budget_s=1500)}
+OPTS = {'quick': dict(max_paths=30000, budget_s=250), 'thorough': dict(max_paths=300000, budget_s=2400)}
 
 
 def ctx_class(case):
